@@ -33,18 +33,28 @@ func (o *Orderer) OrderUniverse(u types.Universe) []*types.Type {
 	list := tList{
 		namer: o.Namer,
 	}
-	for _, p := range u {
-		for _, t := range p.Types {
+	// An entry is listed once, also when the universe files it under more
+	// than one name (the builtin package has one entry for uint8 and byte,
+	// and one for int32 and rune).
+	seen := map[*types.Type]bool{}
+	add := func(t *types.Type) {
+		if !seen[t] {
+			seen[t] = true
 			list.types = append(list.types, t)
 		}
+	}
+	for _, p := range u {
+		for _, t := range p.Types {
+			add(t)
+		}
 		for _, f := range p.Functions {
-			list.types = append(list.types, f)
+			add(f)
 		}
 		for _, v := range p.Variables {
-			list.types = append(list.types, v)
+			add(v)
 		}
 		for _, v := range p.Constants {
-			list.types = append(list.types, v)
+			add(v)
 		}
 	}
 	sort.Sort(list)
